@@ -94,8 +94,8 @@ def main():
     tlv_uw = ["KSI_TLV_free:4", "KSI_TLVList_free:4", "KSI_List_free:4", "serializeTlv:4", "serializePayload:4", "serializeNested:4",
               "KSI_TLV_writeBytes.0:42"]
     chain_tus = ["hashchain", "hash", "types_base", "tlv_element", "fast_tlv"]
-    h3_bb = I("w2d1_bb", C05_W=2, C05_D=1, C05_KIND="{0,0,0,0,0,0}", H3_FIRST_SLOT=0)
-    h3_cbbb = I("w2d1_cbbb", C05_W=2, C05_D=1, C05_KIND="{1,0,0,0,0,0}", H3_FIRST_SLOT=2)
+    h3_bb = I("w2d1_bb", C05_W=2, C05_D=1, C05_KIND="{0,0,0,0,0,0}")
+    h3_cbbb = I("w2d1_cbbb", C05_W=2, C05_D=1, C05_KIND="{1,0,0,0,0,0}")
     h4 = [I("t2_raw3", NCH=0, TOP_HDR=2, RAWPAY=3),
           I("t2_c2x2", NCH=1, TOP_HDR=2, CH_HDR="{2,2}", CH_LEN="{2,0}", CH_TAG="{0x1f,0}"),
           I("t4_c4x1_c2x0", NCH=2, TOP_HDR=4, CH_HDR="{4,2}", CH_LEN="{1,0}", CH_TAG="{0x20,0x00}"),
@@ -130,7 +130,7 @@ def main():
                           "levels on a one-link chain with 64-bit level correction: status, root, end level equal an uncached computation, the "
                           "invariant and the reference accounting of the cached object are re-established after failing calls too (this is the "
                           "check that exposed the dangling cached root, fixed in 4d991fd; a history twin replays the 3-call scenario through "
-                          "the public API); (H-2) the data-hash recycler with a real recycle list: every API history of 4 (thorough 5) "
+                          "the public API; H-1c does the same for the unkeyed root cache of KSI_CalendarHashChain_aggregate); (H-2) the data-hash recycler with a real recycle list: every API history of 4 (thorough 5) "
                           "create/ref/free operations on <= 3 handles, bin size 1 and 2: no handed-out object is still referenced, live "
                           "imprints/refcounts never change, bin bounded and disjoint from live objects, no leak/double free; (H-3) "
                           "KSI_SignatureVerifier_verify twice on one used context with pure stub rules (2-rule tree, thorough also with a "
@@ -141,8 +141,9 @@ def main():
             "level_note": "Component-level, not end-to-end: no real signature is parsed, cloned, verified or extended as a whole; the link "
                           "between these components and 'the signature's serialisation / verdict' is by hand. Hash function, header decoder, "
                           "rule functions and destructors of temporary objects are models (listed under assumptions). H-1 covers one-link "
-                          "chains with SHA-1 sized imprints; H-4 child tags are concrete per instance, top tag / flags / payload symbolic; "
-                          "H-3 assumes the first rule's answer is one that is listed (not the component-present/missing answer). Logging is "
+                          "chains with SHA-1 sized imprints (plus the calendar chain's unkeyed cache on one-link chains, H-1c); H-4 child tags "
+                          "are concrete per instance, top tag / flags / payload symbolic, and tlv.c forms a one-before-the-buffer pointer when "
+                          "a header ends at buf[0] (tlv.c:754/766, never dereferenced; listed as UB-NOTE by the engine). Logging is "
                           "stubbed: log-level independence is not a finding. CBMC 6.11 C semantics."
         },
         "harnesses": [
@@ -185,8 +186,8 @@ def main():
                            "KSI_Signature_free", "KSI_Signature_ref", "KSI_PolicyVerificationResult_free"],
              "bound": "two runs on one context; policy = rule tree of width 2 (quick: two basic rules; thorough also: OR/AND composite of two "
                       "basic rules followed by a basic rule) with a one-rule fallback policy; all rule outcomes (any status, OK/NA/FAIL, any "
-                      "error code), labels, list lengths, which rules leave temporary data, docAggrLevel, previous error count symbolic; the "
-                      "first rule's answer is assumed to be a listed one",
+                      "error code), labels, list lengths, which rules leave temporary data, docAggrLevel, previous error count symbolic"
+                      "",
              "instances": [h3_bb], "thorough": {"instances": [h3_bb, h3_cbbb], "timeout": 1800}},
             {"name": "h4_lazy", "src": "h4_lazy.c", "env": ["ctx", "list_wrap", "fmt_stub"], "tus": ["tlv"],
              "unwind": 6, "unwindset": tlv_uw, "timeout": 300, "mem_gb": 8, "object_bits": 12,
